@@ -275,5 +275,5 @@ func mergeUpdateSharderTotalStakesEvents() *eventsMergerImpl[Sharder] {
 }
 
 func mergeSharderHealthCheckEvents() *eventsMergerImpl[dbs.DbHealthCheck] {
-	return newEventsMerger[dbs.DbHealthCheck](TagSharderHealthCheck, withUniqueEventOverwrite())
+	return newEventsMerger[dbs.DbHealthCheck](TagSharderHealthCheck, withHealthCheckMerged())
 }
